@@ -7,6 +7,7 @@ require (
 	github.com/goreleaser/nfpm/v2 v2.0.0
 	github.com/klauspost/compress v1.18.0
 	github.com/ulikunitz/xz v0.5.12
+	gopkg.in/yaml.v3 v3.0.1
 )
 
 require (
@@ -47,7 +48,6 @@ require (
 	golang.org/x/net v0.38.0 // indirect
 	golang.org/x/sys v0.31.0 // indirect
 	gopkg.in/warnings.v0 v0.1.2 // indirect
-	gopkg.in/yaml.v3 v3.0.1 // indirect
 )
 
 replace github.com/goreleaser/nfpm/v2 => /repo
